@@ -54,6 +54,10 @@ func init() {
 		"flag.String":                stubFlagVal,
 		"flag.Duration":              stubFlagVal,
 		"errors.Is":                  stubErrorsIs,
+		"errors.As":                  stubErrorsAs,
+		"strings.Contains":           stubStringsContains,
+		"strings.Index":              stubStringsIndex,
+		"strings.HasPrefix":          nil,
 		"bytes.Equal":                stubBytesEqual,
 		"bytes.Compare":              stubBytesCompare,
 		"internal/bytealg.IndexByte":       stubIndexByte,
@@ -371,4 +375,63 @@ func stubTimeUnix(it *Interp, fr *frame, fn *ssa.Function, args []Value, site ss
 	}
 	const unixToInternal = 62135596800
 	return &StructV{f: []Value{nsec, tt.Add(sec, tt.Const(64, unixToInternal)), loc}}
+}
+
+func (it *Interp) unwrapErr(fr *frame, err *IfaceV, site ssa.Instruction) *IfaceV {
+	sel := it.sh.prog.MethodSets.MethodSet(err.t).Lookup(nil, "Unwrap")
+	if sel == nil {
+		return nil
+	}
+	m := it.sh.prog.MethodValue(sel)
+	if m == nil || m.Signature.Results().Len() != 1 || !types.Identical(m.Signature.Results().At(0).Type(), types.Universe.Lookup("error").Type()) {
+		return nil
+	}
+	return it.callFunction(fr, m, []Value{err.v}, nil, site).(*IfaceV)
+}
+
+func stubErrorsAs(it *Interp, fr *frame, fn *ssa.Function, args []Value, site ssa.Instruction) Value {
+	err, target := args[0].(*IfaceV), args[1].(*IfaceV)
+	if target.t == nil {
+		it.rtPanic(fr, "explicit", "errors: target cannot be nil")
+	}
+	pt, ok := target.t.Underlying().(*types.Pointer)
+	if !ok {
+		it.rtPanic(fr, "explicit", "errors: target must be a non-nil pointer")
+	}
+	et := pt.Elem()
+	for depth := 0; depth < 16 && err != nil && err.t != nil; depth++ {
+		match := false
+		if iface, isI := et.Underlying().(*types.Interface); isI {
+			match = it.implements(err.t, iface)
+			if match {
+				it.store(fr, target.v.(*PtrV), err)
+				return it.tt.tru
+			}
+		} else if types.Identical(err.t, et) {
+			it.store(fr, target.v.(*PtrV), err.v)
+			return it.tt.tru
+		}
+		err = it.unwrapErr(fr, err, site)
+	}
+	return it.tt.fls
+}
+
+func stubStringsContains(it *Interp, fr *frame, fn *ssa.Function, args []Value, site ssa.Instruction) Value {
+	a, b := args[0].(*StrV), args[1].(*StrV)
+	if a.opaque || b.opaque {
+		// formatted (opaque) text: content unknown, either answer possible
+		return it.tt.Var(it.freshName("contains?"), 0)
+	}
+	if a.b != nil || b.b != nil {
+		it.unsupported("strings.Contains on symbolic strings")
+	}
+	return it.tt.Bool(strings.Contains(a.s, b.s))
+}
+
+func stubStringsIndex(it *Interp, fr *frame, fn *ssa.Function, args []Value, site ssa.Instruction) Value {
+	a, b := args[0].(*StrV), args[1].(*StrV)
+	if a.opaque || b.opaque || a.b != nil || b.b != nil {
+		it.unsupported("strings.Index on symbolic strings")
+	}
+	return it.tt.Const(64, uint64(int64(strings.Index(a.s, b.s))))
 }
